@@ -207,6 +207,8 @@ impl Sim {
         let sym = SString::from_str(&e, "T");
         let a0 = u.a(0).clone();
         let mut mint_auth = None;
+        // (registered BEFORE the token so that the host's last-invocation events are the token constructor's)
+        let other = e.register(Tok, ());
         let tok = match flavor {
             Flavor::AllowList => e.register(ex_allowlist::ExampleContract, (name, sym, a0.clone(), a0.clone(), initial)),
             Flavor::BlockList => e.register(ex_blocklist::ExampleContract, (name, sym, a0.clone(), a0.clone(), initial)),
@@ -225,9 +227,11 @@ impl Sim {
             Flavor::BlockLib => e.register(libflavors::BlockLib, ()),
         };
         assert_eq!(u.push(tok.clone()), SELF);
-        let other = e.register(Tok, ());
         assert_eq!(u.push(other), OTHER);
         let mut s = Sim { e, u, tok, now: start, min_temp, flavor, mint_auth, max_ttl };
+        // the token events the CONSTRUCTOR really emitted (role / list / ownership events dropped)
+        let ctor_ev: Vec<String> = s.events().split(';').filter(|x| !x.starts_with("other:") && *x != "-").map(|x| x.to_string()).collect();
+        let ctor_ev = if ctor_ev.is_empty() { "-".to_string() } else { ctor_ev.join(";") };
         if flavor == Flavor::AllowLib {
             for i in 0..N {
                 let r = call(&s.e, &s.tok, "allow", args(&s.e, [v(&s.e, s.u.a(i))]), &[]);
@@ -244,7 +248,7 @@ impl Sim {
         if matches!(flavor, Flavor::AllowList | Flavor::BlockList | Flavor::Pausable) {
             t.op(&format!("fungible mint a=0 amt={} lu=0 auth=-", initial));
             let st = s.state();
-            t.obs(&format!("ok {} now={} ev=mint:0:{} dem=-", st, s.now, initial));
+            t.obs(&format!("ok {} now={} ev={} dem=-", st, s.now, ctor_ev));
         }
         s.now = start;
         s
